@@ -30,6 +30,16 @@ class MolEditAdapter:
         self.keep = []     # keep objects alive so id() stays unique
         self.nfresh = 0
         self.nap = 0
+        # identity tables (overridden by the trace driver for file-loaded molecules)
+        self.idx, self.elem, self.label = dict(IDX), dict(ELEM), dict(LABEL)
+        self.coordtab = {t: given_coord(t) for t in IDX}
+        self.chgtab = {t: given_charge(t) for t in IDX}
+
+    def gc(self, tag):
+        return self.coordtab[tag]
+
+    def gq(self, tag):
+        return self.chgtab[tag]
 
     def cleanup(self):
         pass
@@ -38,9 +48,9 @@ class MolEditAdapter:
         # an identity that was added before and deleted is re-added as the SAME Atom object (it still carries a
         # stale parent reference to the molecule it was deleted from) - what a user does who moves an atom around
         old = self.obj.get(tag)
-        if old is not None and tag in IDX and not self._live(tag):
+        if old is not None and tag in self.idx and not self._live(tag):
             return old
-        a = self.ml.Atom(ELEM[tag], label=LABEL[tag])
+        a = self.ml.Atom(self.elem[tag], label=self.label[tag])
         self.keep.append(a)
         self.tag[id(a)] = tag
         self.obj[tag] = a
@@ -56,9 +66,9 @@ class MolEditAdapter:
             if a == "add_atom":
                 at = self._new(act["a"])
                 if self.kind == "Molecule" and act["q"]:
-                    mol.add_atom(at, given_coord(act["a"]), given_charge(act["a"]))
+                    mol.add_atom(at, self.gc(act["a"]), self.gq(act["a"]))
                 else:
-                    mol.add_atom(at, given_coord(act["a"]))
+                    mol.add_atom(at, self.gc(act["a"]))
             elif a == "append_atom":
                 mol.append_atom(self._new(act["a"]))
             elif a == "connect":
@@ -139,9 +149,9 @@ class MolEditAdapter:
             if np.all(np.isnan(r)):
                 tok = {"base": "nan", "sh": 0}
             else:
-                for g in IDX:
+                for g in self.idx:
                     for sh in (0, 1):
-                        if np.allclose(r, given_coord(g) + sh * SHIFT, atol=1e-9):
+                        if np.allclose(r, self.gc(g) + sh * SHIFT, atol=1e-9):
                             tok = {"base": g, "sh": sh}
             if tok is None:
                 tok = {"base": "other:" + ",".join(f"{x:.3f}" for x in r), "sh": 0}
@@ -158,7 +168,7 @@ class MolEditAdapter:
                     chg_tok.append("missing")
                 elif not numeric or Q[i] is None:
                     chg_tok.append("nonnumeric")
-                elif t in IDX and math.isclose(float(Q[i]), given_charge(t), abs_tol=1e-9):
+                elif t in self.idx and math.isclose(float(Q[i]), self.gq(t), abs_tol=1e-9):
                     chg_tok.append("q")
                 elif float(Q[i]) == 0.0:
                     chg_tok.append("zero")
